@@ -279,7 +279,7 @@ Definition fork_child_part (prd pwr : Z) (except : list Z) (k : MW unit) : MW un
     let* e := get_errno in sys_write pwr [RLit (encode_int e)] ;> sys__exit 1 in
   let* r := sys_sigemptyset in
   if r <? 0 then fail_ else
-  let* r := reset_signals (seqZ 0 32) in
+  let* r := reset_signals (seqZ SIGNAL_LOOP_FROM (SIGNAL_LOOP_TO - SIGNAL_LOOP_FROM)) in
   if r <? 0 then fail_ else
   let* r := sys_sigemptyset in
   if r <? 0 then fail_ else
@@ -325,6 +325,12 @@ Record process_options := {
   po_env_behavior : Z; po_env_extra : option (list str); po_wd : option str;
   po_in : Z; po_out : Z; po_err : Z; po_exit : Z }.
 
+Definition start_fd_val (o : process_options) (prd pwr : Z) (e : start_fd) : Z :=
+  match e with
+  | E_in => po_in o | E_out => po_out o | E_err => po_err o | E_exit => po_exit o
+  | E_pread => prd | E_pwrite => pwr
+  end.
+
 Fixpoint child_redirect (l : list (Z * Z)) : MW Z :=    (* (redirect[i], i) *)
   match l with
   | [] => ret 0
@@ -340,7 +346,7 @@ Definition start_child_part (prd pwr : Z) (argv : option (list str)) (program : 
            (env : option (Z * list (Z * str))) (o : process_options) (k : MW unit) : MW unit :=
   let fail_ : MW unit :=
     let* e := get_errno in sys_write pwr [RLit (encode_int e)] ;> sys__exit 1 in
-  let* r := child_redirect [(po_in o, 0); (po_out o, 1); (po_err o, 2)] in
+  let* r := child_redirect (imap (fun i e => (start_fd_val o prd pwr e, Z.of_nat i)) start_redirect) in
   if r <? 0 then fail_ else
   let* r := handle_cloexec (po_exit o) false in
   if r <? 0 then fail_ else
@@ -393,7 +399,7 @@ Definition process_start (process : Z) (argv : option (list str)) (o : process_o
       match env with
       | None => finish r process prd pwr pg None            (* r is still 0: returns 1 *)
       | Some _ =>
-          let except := [po_in o; po_out o; po_err o; prd; pwr; po_exit o] in
+          let except := map (start_fd_val o prd pwr) start_except in
           let* r := process_fork except (start_child_part prd pwr argv pg env o child_k) in
           if r <? 0 then finish r process prd pwr pg env else
           let child := r in
@@ -675,7 +681,8 @@ Definition reproc_stop (p : rp) (stop : stop_actions) : MW (Z * rp) :=
   if h_status p =? STATUS_IN_CHILD then ret (REPROC_EINVAL, p) else
   if h_status p =? STATUS_NOT_STARTED then ret (REPROC_EINVAL, p) else
   let stop := parse_stop_actions stop in
-  stop_loop [st_first stop; st_second stop; st_third stop] p (-1).
+  stop_loop (map (fun i => if i =? 0 then st_first stop else if i =? 1 then st_second stop
+                           else st_third stop) stop_actions_order) p (-1).
 
 Definition reproc_pid (p : rp) : Z :=
   if h_status p =? STATUS_IN_CHILD then REPROC_EINVAL else
